@@ -26,4 +26,13 @@ PROPS = {
         assumptions=["echo.ErrStatusRequestEntityTooLarge is what the handler sees as the 413 error",
                      "bytes.Parse of the limit string is not modelled (limits are given as '<n>B')"],
     ),
+    "C17": dict(
+        n_quick=4000, n_thorough=200000, incoq=150, gen=["Src_slash.v"],
+        level_text="Theorems C17_* (Props/C17.v): for every decoded path starting with '/' and every query the Location produced by AddTrailingSlash, RemoveTrailingSlash and the static directory redirect is, as a browser reads it, a same-host path-absolute reference; ordinary paths get exactly path+-slash+query. The byte classes, loop shape and threshold of both sanitizeURI copies are regenerated from the source on every run and their specification lemmas re-proved.",
+        technique="Coq proof by induction over the URI bytes + go/ast-generated sanitizeURI predicates + differential correspondence",
+        trusted=["browser reading of Location modelled as WHATWG URL preprocessing (strip leading C0/space, remove TAB/LF/CR); a second implementation of it in the harness is the implementation-only predicate",
+                 "whether the static handler sees a directory is an oracle taken from the observed response (file-name resolution is C16's subject)",
+                 "net/http header writing (httptest recorder keeps Location verbatim)"],
+        assumptions=["request paths as the router sees them start with '/' (net/http rejects other request targets)"],
+    ),
 }
